@@ -595,9 +595,11 @@ impl WorkerTree {
     }
 
     fn has_configuration_changed(&mut self, config: &Configuration) -> bool {
-        let input = serde_json::to_vec(config).ok().unwrap_or_default();
+        // JSON5 and not JSON, which writes the numbers it does not have (`Infinity`, `NaN`)
+        // like `null`: two different configurations would look the same
+        let input = json5::to_string(config).ok().unwrap_or_default();
 
-        let new_hash = xxh3_64(&input);
+        let new_hash = xxh3_64(input.as_bytes());
 
         let last_hash = self.last_configuration_hash.replace(new_hash);
 
